@@ -43,6 +43,13 @@ CHECKS = {
         "Trusted: corner/side tables of mc/blockmesh_ref.py, foamdict reader.",
         "DESIGN.md 5 C10",
     ),
+    "C07": (
+        "model_checking",
+        "exhaustive enumeration: edge kind x 12 edge slots x short face-reindexing history after attachment x duplicate definition (same/opposite direction, both insertion orders) x frames, executed by assemble+write; edges section read back and compared with an independent circle/polyline model of the curve the user described",
+        "Each user-defined non-straight edge must appear exactly once, on a block edge, with kind/data as given; spline/polyLine point order and angle-arc sense must agree with the order of the two vertices in the entry; Edge.length used for grading equals the described curve's length; line / zero-length / collinear-arc edges are absent.",
+        "Trusted: circle model and polyline length in mc/props/c07.py + mc/blockmesh_ref.py; convention that face edge i runs from point i to i+1.",
+        "DESIGN.md 5 C07",
+    ),
     "C02": (
         "model_checking",
         "stateless model checking of the implementation: choice-point explorer over set iteration orders (iterative deviation bounding) x exhaustive insertion orders / corner numberings / chop placements of small lattice assemblies, edge-family reference model",
